@@ -214,7 +214,12 @@ EvalPlan(p, outer, db) ==
                 [] p.f = "intersect" -> OkRel(IF p.all THEN BagInter(sl.rows, sr.rows)
                                               ELSE DedupSeq(SelectSeq(sl.rows, LAMBDA x : x \in SeqToSet(sr.rows))))
                 [] p.f = "except" -> OkRel(IF p.all THEN BagMinus(sl.rows, sr.rows)
-                                           ELSE DedupSeq(SelectSeq(sl.rows, LAMBDA x : x \notin SeqToSet(sr.rows)))))
+                                           ELSE DedupSeq(SelectSeq(sl.rows, LAMBDA x : x \notin SeqToSet(sr.rows))))
+                \* NOT SQL: the engine's evaluation of INTERSECT ALL / EXCEPT ALL as a semi / anti join
+                \* (multiplicities of the left input kept as they are).  Used only by AltPlan below to
+                \* recognise that known defect; never generated.
+                [] p.f = "intersectS" -> OkRel(SelectSeq(sl.rows, LAMBDA x : x \in SeqToSet(sr.rows)))
+                [] p.f = "exceptS" -> OkRel(SelectSeq(sl.rows, LAMBDA x : x \notin SeqToSet(sr.rows))))
     [] p.op = "sort" ->
          LET s == EvalPlan(p.src, outer, db) IN IF s.err THEN ErrRel ELSE OkRel(SortRows(s.rows, p.keys))
     [] p.op = "limit" ->
@@ -224,6 +229,38 @@ EvalPlan(p, outer, db) ==
                   from == IF p.skip >= n THEN n + 1 ELSE p.skip + 1
                   to == IF p.fetch < 0 THEN n ELSE IF p.skip + p.fetch > n THEN n ELSE p.skip + p.fetch
               IN OkRel(SubSeq(s.rows, from, to))
+
+(***************************************************************************)
+(* AltPlan(p): p with every INTERSECT ALL / EXCEPT ALL replaced by the       *)
+(* semi/anti-join reading above.  A case whose engine result differs from    *)
+(* EvalPlan(p) but equals EvalPlan(AltPlan(p)) exhibits exactly the known    *)
+(* defect "ALL set operations lose multiplicities" and nothing else.         *)
+(***************************************************************************)
+RECURSIVE AltPlan(_), AltExpr(_)
+AltSeq(es) == [i \in 1..Len(es) |-> AltExpr(es[i])]
+AltExpr(e) ==
+  CASE e.op \in {"col", "outer", "lit"} -> e
+    [] e.op = "bin" -> [e EXCEPT !.l = AltExpr(@), !.r = AltExpr(@)]
+    [] e.op = "un" -> [e EXCEPT !.e = AltExpr(@)]
+    [] e.op = "in" -> [e EXCEPT !.e = AltExpr(@), !.list = AltSeq(@)]
+    [] e.op = "between" -> [e EXCEPT !.e = AltExpr(@), !.lo = AltExpr(@), !.hi = AltExpr(@)]
+    [] e.op = "case" -> [e EXCEPT !.whens = [i \in 1..Len(@) |-> <<AltExpr(@[i][1]), AltExpr(@[i][2])>>], !.else = AltExpr(@)]
+    [] e.op = "coalesce" -> [e EXCEPT !.args = AltSeq(@)]
+    [] e.op = "nullif" -> [e EXCEPT !.l = AltExpr(@), !.r = AltExpr(@)]
+    [] e.op = "insub" -> [e EXCEPT !.e = AltExpr(@), !.sub = AltPlan(@)]
+    [] e.op \in {"exists", "scalarsub"} -> [e EXCEPT !.sub = AltPlan(@)]
+    [] OTHER -> e
+AltPlan(p) ==
+  CASE p.op = "scan" -> p
+    [] p.op = "filter" -> [p EXCEPT !.p = AltExpr(@), !.src = AltPlan(@)]
+    [] p.op = "project" -> [p EXCEPT !.es = AltSeq(@), !.src = AltPlan(@)]
+    [] p.op = "join" -> [p EXCEPT !.on = AltExpr(@), !.l = AltPlan(@), !.r = AltPlan(@)]
+    [] p.op = "agg" -> [p EXCEPT !.keys = AltSeq(@), !.src = AltPlan(@),
+                                 !.aggs = [i \in 1..Len(@) |-> [@[i] EXCEPT !.e = AltExpr(@)]]]
+    [] p.op \in {"distinct", "sort", "limit"} -> [p EXCEPT !.src = AltPlan(@)]
+    [] p.op = "setop" -> [p EXCEPT !.l = AltPlan(@), !.r = AltPlan(@),
+                                   !.f = IF p.all /\ p.f = "intersect" THEN "intersectS"
+                                         ELSE IF p.all /\ p.f = "except" THEN "exceptS" ELSE @]
 
 \* how the engine's answer is to be compared with EvalPlan's canonical answer
 \*  "bag"     : same bag of rows
